@@ -2,14 +2,14 @@ import RainModel.Lemmas.LoopNoPanicRun
 import RainModel.Lemmas.LoopQuiesceStep
 import RainModel.Props.C01LoopCfg
 /-!
-C08 / C04, loop level (M-LOOP): **no event history makes the event loop panic.**
+C08 / C04, loop level (M-LOOP): **no event history makes the event loop panic, or hang.**
 
 Where the Go event loop would panic (`t.crash("allocator exists")`, `"verifier exists"`, close of the closed
 `completeC`, nil bitfield in `checkCompletion` / `writeBitfield` / `handlePieceWriteDone`, `"piece is already
 writing"`, `"already have the piece"`) the model sets `St.panicked`.  This file states, for **every** event
-(any op of `Op`: commands, gates incl. `failOpen`/`failWrite`, file mutations, peers, every `Msg` with any
-field values, extension handshakes, metadata blocks/rejects/requests, PEX, DHT, disconnects, snubs), any
-parked block, any set of known peers:
+(any op of `Op`: commands, gates incl. `failOpen` / `failOpenAt` / `failWrite` / `writeDone`, file mutations,
+peers, every `Msg` with any field values, extension handshakes, metadata blocks/rejects/requests, PEX, DHT,
+disconnects, snubs), any parked block, any set of known peers:
 
 * `never_panics_step`  — `NP s → NP (step s p kn op).1.st`, where `NP s = s.panicked = none ∧ Full s` and
   `Full = Life ∧ CompInv ∧ WInv` (`Lemmas/LoopLife*.lean`, `LoopComp.lean`, `LoopWInv*.lean`);
@@ -23,7 +23,7 @@ parked block, any set of known peers:
 The statement the task asked for first,
 
     theorem never_panics_run (s0 : St) (h0 : InitLike s0) (hp0 : s0.panicked = none)
-        (hw : s0.writing = none) (hc : s0.cfg.blocksHaveData = true)
+        (hw : ∀ w, s0.writing = some w → w.gen ≤ s0.gen)
         (evs : List Ev) (ha : drunAdmissible (s0, none) evs) : (drun (s0, none) evs).1.panicked = none
 
 is **false** (`never_panics_run_counterexample`, `never_panics_run_false`): `drunAdmissible` speaks about the
@@ -34,18 +34,25 @@ under the narrowest hypothesis that excludes it — `drunIdlsSane`: *no metadata
 metadata is known* — as `never_panics_run_partial`.  The other hypotheses are needed too, each with a
 concrete panicking history (section `Counterexamples`); none of them is a run of rain.
 
-**…or hang it** (second half of the file).  An event is followed by a chain of worker completions (allocator →
-verifier → stop announcer → restart for a pending verify → …), `runWorkers 12` in the model; each link is a
-goroutine of the real client reporting back to the loop.  `workersQuiet s`: no link is pending that no gate holds.
+Since rain's fix of finding C04-F9 (the result of a write that was started in an earlier run of the torrent is
+ignored) two hypotheses of the first version of these theorems are **gone**: `Cfg.blocksHaveData` (a piece with
+blocks has a non-padding section) and "no write in flight in the initial state" (now only: no write *of a future
+generation*, `never_panics_needs_no_future_write_counterexample`).  The histories that needed them
+(`never_panics_stale_write_…` below) no longer panic.
 
-* `never_hangs_step`: from a state of the invariants every event — any op, any parameters — ends with the
-  workers quiescent (the chain has at most 10 links, the fuel never cuts it short), **unless** the handler
-  leaves a verification request pending while the storage's `Open` fails;
-* `never_hangs_run_failOpen_off`, `never_hangs_run_no_verify`, `never_hangs_peer_messages`: whole histories;
-* **finding** `verify_failOpen_livelock` (+ `…_counterexample`): in that one case the chain never ends — the
-  torrent is restarted, fails to open its files and stops, for ever (until a stop command withdraws the
-  verification request): `handleAllocationDone` does not clear `t.doVerify` when `al.Error != nil`, and
-  `handleStopped` restarts the torrent whenever `t.doVerify` is set.  This is the code of rain as it is.
+**…or hang it** (second half of the file).  An event is followed by a chain of worker completions (allocator →
+verifier → stop announcer → restart for a pending verify → piece writer → …), `runWorkers 12` in the model; each
+link is a goroutine of the real client reporting back to the loop.  `workersQuiet s`: no link is pending that no
+gate holds.
+
+* `never_hangs_step`: from a state of the invariants **every** event — any op, any gates, any parameters — ends
+  with the workers quiescent (the chain has at most 11 links, the fuel never cuts it short: `never_hangs_fuel`);
+* `never_hangs_run`, `never_hangs_peer_messages`: whole histories.
+
+Before rain's fix of finding C04-F8 (a stop caused by an error withdraws a pending verification request) there
+was one exception — a verification pending while the storage's `Open` fails: the torrent was restarted, failed to
+open its files and stopped, for ever — found by the first version of this file (`verify_failOpen_livelock`, commit
+0208222) and confirmed on the real loop.  `verify_failOpen_stops` is that history on the repaired code.
 -/
 namespace Rain.Props.C08Loop
 open Rain.Loop
@@ -65,12 +72,12 @@ theorem never_panics_dstep (sp : St × Parked) (e : Ev) (h : NP sp.1) (hs : e.sa
   dstep_np sp e h hs
 
 /-- **never_panics_run_sane** (the strongest form).  From a freshly added torrent — `InitLike`, not
-panicked, no write in flight, a configuration whose pieces with blocks have data — no history whose picker
-choices are sane (`drunSane`) ever panics, and the invariant holds at its end. -/
-theorem never_panics_run_sane (s0 : St) (h0 : InitLike s0) (hp0 : s0.panicked = none) (hw : s0.writing = none)
-    (hc : s0.cfg.blocksHaveData = true) (evs : List Ev) (hs : drunSane (s0, none) evs) :
+panicked, no write of a future generation in flight — no history whose picker choices are sane (`drunSane`) ever
+panics, and the invariant holds at its end. -/
+theorem never_panics_run_sane (s0 : St) (h0 : InitLike s0) (hp0 : s0.panicked = none)
+    (hw : ∀ w, s0.writing = some w → w.gen ≤ s0.gen) (evs : List Ev) (hs : drunSane (s0, none) evs) :
     (drun (s0, none) evs).1.panicked = none ∧ NP (drun (s0, none) evs).1 :=
-  ⟨(drun_np evs (s0, none) (h0.np hp0 hw hc) hs).np, drun_np evs (s0, none) (h0.np hp0 hw hc) hs⟩
+  ⟨(drun_np evs (s0, none) (h0.np hp0 hw) hs).np, drun_np evs (s0, none) (h0.np hp0 hw) hs⟩
 
 /-- No metadata download is adopted while the metadata is known, along the run. -/
 def drunIdlsSane : St × Parked → List Ev → Prop
@@ -85,17 +92,17 @@ theorem drunSane_of_admissible_idlsSane (evs : List Ev) (sp : St × Parked) (ha 
   | cons e evs ih => exact ⟨⟨dlsSane_of_admissible _ e.impl ha.1, hi.1⟩, ih _ ha.2 hi.2⟩
 
 /-- **never_panics_run_partial.**  The statement of the header plus `drunIdlsSane`. -/
-theorem never_panics_run_partial (s0 : St) (h0 : InitLike s0) (hp0 : s0.panicked = none) (hw : s0.writing = none)
-    (hc : s0.cfg.blocksHaveData = true) (evs : List Ev) (ha : drunAdmissible (s0, none) evs)
+theorem never_panics_run_partial (s0 : St) (h0 : InitLike s0) (hp0 : s0.panicked = none)
+    (hw : ∀ w, s0.writing = some w → w.gen ≤ s0.gen) (evs : List Ev) (ha : drunAdmissible (s0, none) evs)
     (hi : drunIdlsSane (s0, none) evs) : (drun (s0, none) evs).1.panicked = none :=
-  (never_panics_run_sane s0 h0 hp0 hw hc evs (drunSane_of_admissible_idlsSane evs _ ha hi)).1
+  (never_panics_run_sane s0 h0 hp0 hw evs (drunSane_of_admissible_idlsSane evs _ ha hi)).1
 
 /-- **never_panics_run_admissible.**  On the runs the driver accepts (neither a C09 error from `reconcile` nor
 a C13 error from `reconcileIdl`): no panic. -/
-theorem never_panics_run_admissible (s0 : St) (h0 : InitLike s0) (hp0 : s0.panicked = none) (hw : s0.writing = none)
-    (hc : s0.cfg.blocksHaveData = true) (evs : List Ev) (ha : drunAdmissible (s0, none) evs)
+theorem never_panics_run_admissible (s0 : St) (h0 : InitLike s0) (hp0 : s0.panicked = none)
+    (hw : ∀ w, s0.writing = some w → w.gen ≤ s0.gen) (evs : List Ev) (ha : drunAdmissible (s0, none) evs)
     (hi : drunAdmissibleI (s0, none) evs) : (drun (s0, none) evs).1.panicked = none :=
-  (never_panics_run_sane s0 h0 hp0 hw hc evs (drunSane_of_admissible evs _ (h0.np hp0 hw hc) ha hi)).1
+  (never_panics_run_sane s0 h0 hp0 hw evs (drunSane_of_admissible evs _ (h0.np hp0 hw) ha hi)).1
 
 /-- The state `stepDriver` installs for a `new …` line (Driver/Suites/Loop.lean), whatever the line says. -/
 def driverInit (toks : List String) (magnet seeded iaa : Bool) (nu no isz mm pm : Nat) : St :=
@@ -110,8 +117,8 @@ state are theorems (`driver_new_initLike`): every history with sane choices, fro
 theorem never_panics_driver (toks : List String) (magnet seeded iaa : Bool) (nu no isz mm pm : Nat) (evs : List Ev)
     (hs : drunSane (driverInit toks magnet seeded iaa nu no isz mm pm, none) evs) :
     (drun (driverInit toks magnet seeded iaa nu no isz mm pm, none) evs).1.panicked = none := by
-  obtain ⟨h0, _, _, hp, hc, hw⟩ := Rain.Props.C01LoopCfg.driver_new_initLike toks magnet seeded iaa nu no isz mm pm
-  exact (never_panics_run_sane _ h0 hp hw hc evs hs).1
+  obtain ⟨h0, _, _, hp, _, hw⟩ := Rain.Props.C01LoopCfg.driver_new_initLike toks magnet seeded iaa nu no isz mm pm
+  exact (never_panics_run_sane _ h0 hp (noFuture_of_none hw) evs hs).1
 
 /-- **never_panics_steps.**  Histories of bare steps — every event handled, the implementation starts no
 download — need no hypothesis on the history: any ops, any parameters, any `known` sets. -/
@@ -158,26 +165,26 @@ private def evsM : List Ev := [
 
 /-- **never_panics_run_counterexample.**  All hypotheses of the header statement hold, and the model panics. -/
 theorem never_panics_run_counterexample :
-    InitLike sM ∧ sM.panicked = none ∧ sM.writing = none ∧ sM.cfg.blocksHaveData = true ∧
+    InitLike sM ∧ sM.panicked = none ∧ sM.writing = none ∧
     drunAdmissible (sM, none) evsM ∧
     (drun (sM, none) evsM).1.panicked = some "allocator exists" ∧
     -- what is wrong with it: a metadata download adopted while the metadata is known
     ¬ drunIdlsSane (sM, none) evsM ∧ ¬ drunAdmissibleI (sM, none) evsM ∧
     -- and only that choice is (fifth event): the first four events satisfy everything
     drunSane (sM, none) (evsM.take 4) :=
-  ⟨by apply initLike_of <;> decide, by decide, by decide, by decide, by decide, by decide,
+  ⟨by apply initLike_of <;> decide, by decide, by decide, by decide, by decide,
    by unfold evsM; simp only [drunIdlsSane]; decide, by decide, by decide⟩
 
 /-- The header statement as a proposition … -/
 def never_panics_run_stmt : Prop :=
-  ∀ (s0 : St), InitLike s0 → s0.panicked = none → s0.writing = none → s0.cfg.blocksHaveData = true →
+  ∀ (s0 : St), InitLike s0 → s0.panicked = none → (∀ w, s0.writing = some w → w.gen ≤ s0.gen) →
     ∀ evs : List Ev, drunAdmissible (s0, none) evs → (drun (s0, none) evs).1.panicked = none
 
 /-- … is false. -/
 theorem never_panics_run_false : ¬ never_panics_run_stmt := by
   intro h
-  obtain ⟨a, b, c, d, e, f, _⟩ := never_panics_run_counterexample
-  have := h sM a b c d evsM e
+  obtain ⟨a, b, c, e, f, _⟩ := never_panics_run_counterexample
+  have := h sM a b (noFuture_of_none c) evsM e
   rw [f] at this
   cases this
 
@@ -201,14 +208,36 @@ private def evsP : List Ev := [
 /-- **Sanity of the piece downloads is needed** (and with it some hypothesis on the picker: without
 `drunAdmissible` / `drunSane` the statement is false).  Everything else holds, `drunIdlsSane` included. -/
 theorem never_panics_needs_sane_picker_counterexample :
-    InitLike s2 ∧ s2.panicked = none ∧ s2.writing = none ∧ s2.cfg.blocksHaveData = true ∧
+    InitLike s2 ∧ s2.panicked = none ∧ s2.writing = none ∧
     drunAdmissibleI (s2, none) evsP ∧
     (drun (s2, none) evsP).1.panicked = some "already have the piece" ∧
     ¬ drunSane (s2, none) evsP ∧ ¬ drunAdmissible (s2, none) evsP ∧ drunSane (s2, none) (evsP.take 4) :=
-  ⟨by apply initLike_of <;> decide, by decide, by decide, by decide, by decide, by decide, by decide, by decide,
-   by decide⟩
+  ⟨by apply initLike_of <;> decide, by decide, by decide, by decide, by decide, by decide, by decide, by decide⟩
 
-/-- Piece 1 consists of a padding file only but has a block. -/
+/-- `InitLike` does not exclude a write in flight that claims to belong to the *next* generation of pieces. -/
+private def sW : St :=
+  { s1 with fileExists := [true], known := [true], bad := [], gateWrite := true,
+            writing := some { piece := 0, src := 0, good := true, gen := 1 } }
+private def evsW : List Ev := [⟨.start, kn [], [], []⟩, ⟨.gate .write false, kn [], [], []⟩]
+private theorem initLike_sW : InitLike sW :=
+  ⟨cfgWF_of_check _ (by decide), fun x hx => (by cases hx), rfl, rfl, rfl, rfl, rfl, rfl, rfl, rfl, rfl, rfl, rfl, rfl,
+    rfl, rfl, rfl⟩
+
+/-- **"No write of a future generation in the initial state" is needed**: the file is on disk and good, the job
+is held by the write gate; `start` allocates and verifies — bit set, `Seeding`, and the pieces now loaded are of the
+job's generation; the gate is released, the job is "current", the piece is written again and the success path
+finds the bit set.  (No torrent object is created with a write in flight; with `gen ≤` the job is stale for ever
+and ignored.) -/
+theorem never_panics_needs_no_future_write_counterexample :
+    InitLike sW ∧ sW.panicked = none ∧ ¬ (∀ w, sW.writing = some w → w.gen ≤ sW.gen) ∧
+    drunAdmissible (sW, none) evsW ∧ drunAdmissibleI (sW, none) evsW ∧ drunSane (sW, none) evsW ∧
+    (drun (sW, none) (evsW.take 1)).1.status = .seeding ∧
+    (drun (sW, none) evsW).1.panicked = some "already have the piece" :=
+  ⟨initLike_sW, by decide, fun h => absurd (h _ rfl) (by decide), by decide, by decide, by decide, by decide, by decide⟩
+
+/-! #### histories that panicked before the fix of finding C04-F9 (stale write results are ignored) -/
+
+/-- Piece 1 consists of a padding file only but has a block (`Cfg.blocksHaveData` is false). -/
 private def cB : Cfg :=
   { pl := 16384, plens := [16384, 16384], blocks := [[(0, 16384)], [(0, 16384)]], flens := [16384, 16384],
     fpads := [false, true], fnames := ["t", "pad"] }
@@ -223,27 +252,57 @@ private def evsB : List Ev := [
   ⟨.verify, kn [1], [], []⟩,
   ⟨.gate .write false, kn [1], [], []⟩]
 
-/-- **`blocksHaveData` is needed**: the write of the padding-only piece is held by the gate, a verify runs
-meanwhile (the verifier finds the padding piece fine: bit set), then the stale write completes without touching
-the storage and takes the success path.  (`calcBlocks` never produces such block lists:
-`parseNew_blocksHaveData`.) -/
-theorem never_panics_needs_blocksHaveData_counterexample :
-    InitLike sB ∧ sB.panicked = none ∧ sB.writing = none ∧ sB.cfg.blocksHaveData = false ∧
-    drunAdmissible (sB, none) evsB ∧ drunAdmissibleI (sB, none) evsB ∧ drunSane (sB, none) evsB ∧
-    (drun (sB, none) evsB).1.panicked = some "already have the piece" :=
-  ⟨by apply initLike_of <;> decide, by decide, by decide, by decide, by decide, by decide, by decide, by decide⟩
+/-- The write of the padding-only piece is held by the gate, a verify runs meanwhile (the verifier finds the
+padding piece fine: bit set), then the stale write completes without touching the storage.  It used to take the
+success path (`already have the piece`, which is why `blocksHaveData` was a hypothesis); now it is ignored, and
+the theorem applies to this configuration. -/
+theorem never_panics_stale_write_padding_piece :
+    InitLike sB ∧ sB.cfg.blocksHaveData = false ∧ drunSane (sB, none) evsB ∧
+    (drun (sB, none) (evsB.take 7)).1.writing.isSome = true ∧ (drun (sB, none) (evsB.take 7)).1.bf = some [false, true] ∧
+    (drun (sB, none) evsB).1.writing = none ∧ (drun (sB, none) evsB).1.bf = some [false, true] ∧
+    (drun (sB, none) evsB).1.panicked = none :=
+  ⟨by apply initLike_of <;> decide, by decide, by decide, by decide, by decide, by decide, by decide,
+   (never_panics_run_sane sB (by apply initLike_of <;> decide) (by decide) (noFuture_of_none (by decide)) evsB (by decide)).1⟩
 
-/-- `InitLike` does not say that no write is in flight. -/
-private def sW : St := { s1 with writing := some { piece := 5, src := 0, good := true, gen := 0 } }
-private def evsW : List Ev := [⟨.nop, kn [], [], []⟩]
+/-- **The crash seed of finding C04-F9** on the repaired code: the piece is written, the writer is held after its
+storage calls (`gate writeDone`), the torrent is stopped and started again (the new run's bitfield comes from the
+resume record or a fresh allocation), then the old result is delivered: stale, ignored — before the fix it was
+applied to the new run (`handlePieceWriteDone: nil bitfield` when delivered while the restart was still
+allocating).  The histories contain `gate writeDone` ops and satisfy the hypotheses of `never_panics_run_sane`. -/
+private def evsS : List Ev := [
+  ⟨.start, kn [], [], []⟩,
+  ⟨.peer 1 "10.0.0.2" true true false, kn [], [], []⟩,
+  ⟨.msg 1 .haveAll, kn [1], [], []⟩,
+  ⟨.msg 1 .unchoke, kn [1], [⟨1, 0, false, false, false⟩], []⟩,
+  ⟨.gate .writeDone true, kn [1], [⟨1, 0, false, false, false⟩], []⟩,
+  ⟨.msg 1 (.piece 0 0 16384 true), kn [1], [], []⟩,
+  ⟨.stop, kn [1], [], []⟩,
+  ⟨.gate .open true, kn [1], [], []⟩,
+  ⟨.start, kn [1], [], []⟩,
+  ⟨.gate .writeDone false, kn [1], [], []⟩]
 
-/-- **`writing = none` is needed**: a good job for a piece without sections completes at the first event and
-finds no bitfield.  (No torrent object is created with a write in flight.) -/
-theorem never_panics_needs_no_initial_write_counterexample :
-    InitLike sW ∧ sW.panicked = none ∧ sW.cfg.blocksHaveData = true ∧
-    drunAdmissible (sW, none) evsW ∧ drunAdmissibleI (sW, none) evsW ∧ drunSane (sW, none) evsW ∧
-    (drun (sW, none) evsW).1.panicked = some "handlePieceWriteDone: nil bitfield" :=
-  ⟨by apply initLike_of <;> decide, by decide, by decide, by decide, by decide, by decide, by decide⟩
+theorem never_panics_stale_write_after_restart :
+    drunSane (s2, none) evsS ∧
+    -- the bytes are on disk, the result is held
+    (drun (s2, none) (evsS.take 6)).1.writing.map (fun w => (w.piece, w.src, w.good, w.gen, w.written)) =
+      some (0, 1, true, 1, true) ∧
+    (drun (s2, none) (evsS.take 6)).1.diskOK = [true, false] ∧ (drun (s2, none) (evsS.take 6)).1.bf = some [false, false] ∧
+    -- stopped and started again: allocating (gate held), no pieces loaded, the old result still held
+    (drun (s2, none) (evsS.take 9)).1.status = .allocating ∧ (drun (s2, none) (evsS.take 9)).1.loaded = false ∧
+    (drun (s2, none) (evsS.take 9)).1.writing.isSome = true ∧
+    -- delivered: ignored
+    (drun (s2, none) evsS).1.writing = none ∧ (drun (s2, none) evsS).1.status = .allocating ∧
+    (drun (s2, none) evsS).1.bf = some [false, false] ∧ (drun (s2, none) evsS).1.panicked = none :=
+  ⟨by decide, by decide, by decide, by decide, by decide, by decide, by decide, by decide, by decide, by decide,
+   (never_panics_run_sane s2 (by apply initLike_of <;> decide) (by decide) (noFuture_of_none (by decide)) evsS (by decide)).1⟩
+
+/-- … and a held result that is still current when it is delivered is applied: bit set, `have` sent, the invariant
+`WInv.wd` in between (flag set, piece not done). -/
+theorem held_write_result_delivered :
+    (drun (s2, none) (evsS.take 6 ++ [⟨.gate .writeDone false, kn [1], [], []⟩])).1.bf = some [true, false] ∧
+    (drun (s2, none) (evsS.take 6 ++ [⟨.gate .writeDone false, kn [1], [], []⟩])).1.writing = none ∧
+    (drun (s2, none) (evsS.take 6)).1.wflag = [true, false] ∧ (drun (s2, none) (evsS.take 6)).1.done = [false, false] ∧
+    drunSane (s2, none) (evsS.take 6 ++ [⟨.gate .writeDone false, kn [1], [], []⟩]) := by decide
 
 end Counterexamples
 
@@ -272,7 +331,7 @@ example : NP (drun (s2, none) evsN).1 ∧
     (drun (s2, none) evsN).1.status = .downloading ∧ (drun (s2, none) evsN).1.peers.length = 2 ∧
     (drun (s2, none) evsN).1.writing.isSome = true ∧ (drun (s2, none) evsN).1.unchoked = [2] ∧
     (drun (s2, none) evsN).1.wflag = [true, false] ∧ (drun (s2, none) evsN).1.dls.length = 1 :=
-  ⟨(never_panics_run_sane s2 (by apply initLike_of <;> decide) (by decide) (by decide) (by decide) evsN (by decide)).2,
+  ⟨(never_panics_run_sane s2 (by apply initLike_of <;> decide) (by decide) (noFuture_of_none (by decide)) evsN (by decide)).2,
    by decide, by decide, by decide, by decide, by decide, by decide⟩
 
 /-- From there every further event keeps the invariant (`never_panics_step` is not vacuous) — e.g. the hostile
@@ -281,7 +340,7 @@ the wrong length, an out-of-range `have`, a metadata block. -/
 example (op : Op) (p : Parked) (kn : Nat → Bool) :
     (step (drun (s2, none) evsN).1 p kn op).1.st.panicked = none :=
   (never_panics_step _ p kn op
-    (never_panics_run_sane s2 (by apply initLike_of <;> decide) (by decide) (by decide) (by decide) evsN (by decide)).2).np
+    (never_panics_run_sane s2 (by apply initLike_of <;> decide) (by decide) (noFuture_of_none (by decide)) evsN (by decide)).2).np
 
 /-- … and the same history continued: the gate opens, the write completes, piece 1 follows, `Seeding`; the
 hypotheses of `never_panics_run_partial` and `never_panics_run_admissible` hold as well. -/
@@ -299,138 +358,71 @@ end NonVacuity
 /-! ## The loop does not hang: the worker chain after an event ends -/
 
 /-- **never_hangs_step.**  From a state of the invariants (`Full`, and `DV`: a set `doVerify` is being acted
-upon) every event ends with no un-gated worker completion pending, unless its handler leaves a verification
-pending while `Open` fails. -/
-theorem never_hangs_step (s : St) (p : Parked) (kn : Nat → Bool) (op : Op) (h : NP s) (hdv : DV s)
-    (hfl : (handled s p kn op).failOpen = true → (handled s p kn op).doVerify = false) :
-    workersQuiet (step s p kn op).1.st = true ∧ (step s p kn op).1.st.panicked = none :=
-  ⟨step_quiet s p kn op h.full hdv hfl, (step_np s p kn op h).np⟩
+upon) **every** event — any op, any gates (`failOpen`, `failOpenAt`, `failWrite`, `writeDone`, …), any parameters,
+any parked block — ends with no un-gated worker completion pending, without panic, in a state of the invariants. -/
+theorem never_hangs_step (s : St) (p : Parked) (kn : Nat → Bool) (op : Op) (h : NP s) (hdv : DV s) :
+    workersQuiet (step s p kn op).1.st = true ∧ (step s p kn op).1.st.panicked = none ∧
+    NP (step s p kn op).1.st ∧ DV (step s p kn op).1.st :=
+  ⟨(step_quiet s p kn op ⟨h.full, hdv⟩).1, (step_np s p kn op h).np, step_np s p kn op h, step_dv s p kn op hdv⟩
 
-/-- The chain has at most 10 links: more fuel changes nothing (the quiet states are fixed points). -/
-theorem never_hangs_fuel (n : Nat) (m : M) (h : QInv m.1) : runWorkers (10 + n) m = runWorkers 10 m := by
+/-- The chain has at most 11 links: more fuel changes nothing (the quiet states are fixed points). -/
+theorem never_hangs_fuel (n : Nat) (m : M) (h : QInv m.1) : runWorkers (11 + n) m = runWorkers 11 m := by
   rw [runWorkers_add]
-  exact runWorkers_of_quiet n _ (runWorkers_quiet 10 m h (wrank_le _)).1
+  exact runWorkers_of_quiet n _ (runWorkers_quiet 11 m h (wrank_le _)).1
 
-/-- **never_hangs_run_failOpen_off.**  From a freshly added torrent, along every history with sane picker
-choices in which the storage's `Open` is never made to fail: after every event the workers are quiescent, and
-nothing has panicked. -/
-theorem never_hangs_run_failOpen_off (s0 : St) (h0 : InitLike s0) (hp0 : s0.panicked = none) (hw : s0.writing = none)
-    (hc : s0.cfg.blocksHaveData = true) (hd : s0.doVerify = false) (hf : s0.failOpen = false) (evs : List Ev)
-    (hop : ∀ e ∈ evs, e.op.setsFailOpen = false) (hs : drunSane (s0, none) evs) :
+/-- **never_hangs_run.**  From a freshly added torrent, along every history with sane picker choices — any ops,
+the verify command and failing storage included —: after every event the workers are quiescent, and nothing has
+panicked. -/
+theorem never_hangs_run (s0 : St) (h0 : InitLike s0) (hp0 : s0.panicked = none) (hw : s0.writing = none)
+    (hd : s0.doVerify = false) (evs : List Ev) (hs : drunSane (s0, none) evs) :
     workersQuiet (drun (s0, none) evs).1 = true ∧ (drun (s0, none) evs).1.panicked = none :=
-  have h := drun_qrun_failOpen_off evs (s0, none) (h0.qrun hp0 hw hc hd) hf hop hs
+  have h := drun_qrun evs (s0, none) (h0.qrun hp0 hw hd) hs
   ⟨h.quiet, h.np.np⟩
 
-/-- **never_hangs_run_no_verify.**  The same with `Open` failing at will (`failOpen`, `failWrite`, every gate)
-along histories without the verify command. -/
-theorem never_hangs_run_no_verify (s0 : St) (h0 : InitLike s0) (hp0 : s0.panicked = none) (hw : s0.writing = none)
-    (hc : s0.cfg.blocksHaveData = true) (hd : s0.doVerify = false) (evs : List Ev)
-    (hop : ∀ e ∈ evs, e.op.isVerify = false) (hs : drunSane (s0, none) evs) :
-    workersQuiet (drun (s0, none) evs).1 = true ∧ (drun (s0, none) evs).1.panicked = none :=
-  have h := drun_qrun_no_verify evs (s0, none) (h0.qrun hp0 hw hc hd) hd hop hs
-  ⟨h.quiet, h.np.np⟩
-
-/-- **never_hangs_peer_messages** (the C08 reading).  From any quiescent state of the invariants with no
-verification pending — whatever the gates, failing storage included — no sequence of peer messages (any kinds,
-any order, any field values, any peer ids) panics the loop or leaves its workers busy. -/
-theorem never_hangs_peer_messages (s : St) (p : Parked) (h : QRun s) (hd : s.doVerify = false) (kn : Nat → Bool)
-    (msgs : List (Nat × Msg)) :
+/-- **never_hangs_peer_messages** (the C08 reading).  From any quiescent state of the invariants — whatever the
+gates, failing storage and a pending verification included — no sequence of peer messages (any kinds, any order,
+any field values, any peer ids) panics the loop or leaves its workers busy. -/
+theorem never_hangs_peer_messages (s : St) (p : Parked) (h : QRun s) (kn : Nat → Bool) (msgs : List (Nat × Msg)) :
     workersQuiet (srun (s, p) (msgs.map fun km => (Op.msg km.1 km.2, kn))).1 = true ∧
-    (srun (s, p) (msgs.map fun km => (Op.msg km.1 km.2, kn))).1.panicked = none := by
-  have := srun_qrun_no_verify (msgs.map fun km => (Op.msg km.1 km.2, kn)) (s, p) h hd (by
-    intro o ho
-    simp only [List.mem_map] at ho
-    obtain ⟨km, _, rfl⟩ := ho
-    rfl)
-  exact ⟨this.quiet, this.np.np⟩
+    (srun (s, p) (msgs.map fun km => (Op.msg km.1 km.2, kn))).1.panicked = none :=
+  have := srun_qrun (msgs.map fun km => (Op.msg km.1 km.2, kn)) (s, p) h
+  ⟨this.quiet, this.np.np⟩
 
-/-- **verify_failOpen_livelock** (finding).  A stopped torrent whose metadata is known, trackers answering,
-`Open` failing: after the verify command the restart loop runs, and however long one waits (`k` further
-events, each letting 12 more links of the chain run) it still runs: a worker completion is always pending, the
-verification request is never dropped, nothing panics. -/
-theorem verify_failOpen_livelock (s : St) (p : Parked) (kn : Nat → Bool) (h : Life s) (he : s.errC = false)
-    (hi : s.info = true) (hp : s.panicked = none) (hf : s.failOpen = true) (hh : s.stopHang = false) (k : Nat) :
-    let s' := (srun ((step s p kn .verify).1.st, (step s p kn .verify).2) (List.replicate k (Op.nop, kn))).1
-    workersQuiet s' = false ∧ s'.doVerify = true ∧ s'.panicked = none ∧
-      (s'.status = .stopping ∨ s'.status = .allocating) := by
-  have key : ∀ (k : Nat) (sp : St × Parked), Flap sp.1 → Flap (srun sp (List.replicate k (Op.nop, kn))).1 := by
-    intro k
-    induction k with
-    | zero => intro sp hsp; exact hsp
-    | succ k ih =>
-      intro sp hsp
-      rw [List.replicate_succ]
-      exact ih _ (flap_step_nop sp.1 sp.2 kn hsp)
-  have hfl := key k ((step s p kn .verify).1.st, (step s p kn .verify).2) (verify_failOpen_flaps s p kn h he hi hp hf hh)
-  refine ⟨hfl.pending, hfl.dv, hfl.np, ?_⟩
-  rcases hfl.phase with ⟨a, _⟩ | ⟨a, b, c⟩
-  · left
-    exact (status_stopping_iff _).2 ⟨hfl.errC, a⟩
-  · right
-    unfold St.status
-    simp [a, b, c]
-
-/-! ### The livelock on a concrete torrent, and non-vacuity of the quiescence theorems -/
+/-! ### The former livelock, and non-vacuity -/
 section Livelock
 
 private def knL (l : List Nat) : Nat → Bool := fun k => l.contains k
 
 /-- One piece, one file, nothing on disk; the storage's `Open` is made to fail, then `Verify()`. -/
 private def evsL : List Ev := [⟨.gate .failOpen true, knL [], [], []⟩, ⟨.verify, knL [], [], []⟩]
-private def nopL : Ev := ⟨.nop, knL [], [], []⟩
 
-/-- **verify_failOpen_livelock_counterexample.**  Shortest history: `gate failOpen on`, `verify` from the freshly
-added torrent.  Every hypothesis of `never_panics_run_sane` holds (and nothing panics), but the step ends with
-its fuel exhausted in the middle of the restart loop — `Allocating`, the verification request still pending,
-the allocator about to fail again; the twelve links it ran failed to open the file six times.  Three events later
-nothing has changed, except that the file was tried eighteen more times. -/
-theorem verify_failOpen_livelock_counterexample :
-    InitLike s1 ∧ s1.panicked = none ∧ s1.writing = none ∧ s1.cfg.blocksHaveData = true ∧ s1.doVerify = false ∧
-    drunSane (s1, none) (evsL ++ [nopL, nopL, nopL]) ∧
-    (drun (s1, none) evsL).1.status = .allocating ∧ (drun (s1, none) evsL).1.doVerify = true ∧
-    workersQuiet (drun (s1, none) evsL).1 = false ∧ (drun (s1, none) evsL).1.panicked = none ∧
-    (drun (s1, none) evsL).1.sto = List.replicate 6 "openfail:t" ∧
-    (drun (s1, none) (evsL ++ [nopL, nopL, nopL])).1.status = .allocating ∧
-    workersQuiet (drun (s1, none) (evsL ++ [nopL, nopL, nopL])).1 = false ∧
-    (drun (s1, none) (evsL ++ [nopL, nopL, nopL])).1.sto = List.replicate 6 "openfail:t" ∧
-    -- a stop command ends it (it withdraws the request: fix C04-F6)
-    (drun (s1, none) (evsL ++ [nopL, ⟨.stop, knL [], [], []⟩])).1.status = .stopped ∧
-    workersQuiet (drun (s1, none) (evsL ++ [nopL, ⟨.stop, knL [], [], []⟩])).1 = true :=
-  ⟨by apply initLike_of <;> decide, by decide, by decide, by decide, by decide, by decide, by decide, by decide,
-   by decide, by decide, by decide, by decide, by decide, by decide, by decide, by decide⟩
+/-- **verify_failOpen_stops** (finding C04-F8 on the repaired code).  `gate failOpen on`, `verify` from the freshly
+added torrent: the restart for the verification fails to open the file once, `stop(err)` withdraws the request,
+the torrent ends `Stopped` with the error recorded, the workers quiescent.  (On the unrepaired code this step
+never ended: twelve links of the chain failed to open the file six times and left the torrent `Allocating` with
+the request still pending — theorem `verify_failOpen_livelock` of the first version of this file.) -/
+theorem verify_failOpen_stops :
+    InitLike s1 ∧ drunSane (s1, none) evsL ∧
+    (drun (s1, none) evsL).1.status = .stopped ∧ (drun (s1, none) evsL).1.doVerify = false ∧
+    (drun (s1, none) evsL).1.lastErr = true ∧ workersQuiet (drun (s1, none) evsL).1 = true ∧
+    (drun (s1, none) evsL).1.panicked = none ∧ (drun (s1, none) evsL).1.sto = ["openfail:t"] :=
+  ⟨by apply initLike_of <;> decide, by decide, by decide, by decide, by decide, by decide, by decide, by decide⟩
 
-/-- The general theorem applies to it (its hypotheses are satisfiable). -/
-example (k : Nat) :
-    workersQuiet (srun ((step (drun (s1, none) (evsL.take 1)).1 none (knL []) .verify).1.st,
-      (step (drun (s1, none) (evsL.take 1)).1 none (knL []) .verify).2) (List.replicate k (Op.nop, knL []))).1 = false :=
-  (verify_failOpen_livelock _ none (knL [])
-    (drun_np _ (s1, none) (InitLike.np (by apply initLike_of <;> decide) (by decide) (by decide) (by decide))
-      (by decide)).full.life (by decide) (by decide) (by decide) (by decide) (by decide) k).1
-
-/-- Non-vacuity of `never_hangs_run_failOpen_off` / `never_hangs_run_no_verify`: the download of section
-`NonVacuity` (two peers, a gated write, `Seeding` at the end) followed by `Verify()` (stop, restart, allocation,
-verification of the existing file, stop: a chain of five links inside one step) satisfies the hypotheses of the
-first; without the verify, with `Open` made to fail at the end, those of the second. -/
-example : (∀ e ∈ evsN2 ++ [⟨.verify, kn' [1, 2], [], []⟩], e.op.setsFailOpen = false) ∧
-    drunSane (s2, none) (evsN2 ++ [⟨.verify, kn' [1, 2], [], []⟩]) ∧
+/-- Non-vacuity of `never_hangs_run`: the download of section `NonVacuity` (two peers, a gated write, `Seeding` at
+the end) followed by `Verify()` (stop, restart, allocation, verification of the existing file, stop: a chain of
+five links inside one step), and then `Open` failing at the second of … one file: `failOpenAt 0`, a start that
+fails: the hypotheses hold, and so does the conclusion. -/
+example : drunSane (s2, none) (evsN2 ++ [⟨.verify, kn' [1, 2], [], []⟩, ⟨.gate (.failOpenAt 0) true, kn' [1, 2], [], []⟩,
+      ⟨.verify, kn' [1, 2], [], []⟩]) ∧
     (drun (s2, none) (evsN2 ++ [⟨.verify, kn' [1, 2], [], []⟩])).1.status = .stopped ∧
     (drun (s2, none) (evsN2 ++ [⟨.verify, kn' [1, 2], [], []⟩])).1.bf = some [true, true] ∧
-    (drun (s2, none) (evsN2 ++ [⟨.verify, kn' [1, 2], [], []⟩])).1.doVerify = false ∧
-    workersQuiet (drun (s2, none) (evsN2 ++ [⟨.verify, kn' [1, 2], [], []⟩])).1 = true :=
+    (drun (s2, none) (evsN2 ++ [⟨.verify, kn' [1, 2], [], []⟩, ⟨.gate (.failOpenAt 0) true, kn' [1, 2], [], []⟩,
+      ⟨.verify, kn' [1, 2], [], []⟩])).1.status = .stopped ∧
+    (drun (s2, none) (evsN2 ++ [⟨.verify, kn' [1, 2], [], []⟩, ⟨.gate (.failOpenAt 0) true, kn' [1, 2], [], []⟩,
+      ⟨.verify, kn' [1, 2], [], []⟩])).1.doVerify = false ∧
+    workersQuiet (drun (s2, none) (evsN2 ++ [⟨.verify, kn' [1, 2], [], []⟩, ⟨.gate (.failOpenAt 0) true, kn' [1, 2], [], []⟩,
+      ⟨.verify, kn' [1, 2], [], []⟩])).1 = true :=
   ⟨by decide, by decide, by decide, by decide, by decide, by decide⟩
-
-example : (∀ e ∈ evsN2 ++ [⟨.gate .failOpen true, kn' [1, 2], [], []⟩, ⟨.stop, kn' [1, 2], [], []⟩,
-      ⟨.start, kn' [1, 2], [], []⟩], e.op.isVerify = false) ∧
-    drunSane (s2, none) (evsN2 ++ [⟨.gate .failOpen true, kn' [1, 2], [], []⟩, ⟨.stop, kn' [1, 2], [], []⟩,
-      ⟨.start, kn' [1, 2], [], []⟩]) ∧
-    -- the restart fails to open the file: stopped with the error, once
-    (drun (s2, none) (evsN2 ++ [⟨.gate .failOpen true, kn' [1, 2], [], []⟩, ⟨.stop, kn' [1, 2], [], []⟩,
-      ⟨.start, kn' [1, 2], [], []⟩])).1.status = .stopped ∧
-    (drun (s2, none) (evsN2 ++ [⟨.gate .failOpen true, kn' [1, 2], [], []⟩, ⟨.stop, kn' [1, 2], [], []⟩,
-      ⟨.start, kn' [1, 2], [], []⟩])).1.lastErr = true ∧
-    (drun (s2, none) (evsN2 ++ [⟨.gate .failOpen true, kn' [1, 2], [], []⟩, ⟨.stop, kn' [1, 2], [], []⟩,
-      ⟨.start, kn' [1, 2], [], []⟩])).1.sto = ["openfail:t"] :=
-  ⟨by decide, by decide, by decide, by decide, by decide⟩
 
 end Livelock
 
